@@ -1,0 +1,159 @@
+//go:build verif
+
+package tars
+
+// Verification hooks for the endpoint health / failover state machine
+// (AdapterProxy.checkActive & co., endpointManager.checkStatus/SelectAdapterProxy/addAliveEp).
+// Compiled only with `-tags verif`; nothing here is referenced by the normal build.
+//
+// The hooks construct an endpointManager that is NOT registered with the global manager (so no
+// background ticker calls checkStatus or refreshes endpoints behind the test's back), expose the
+// health record of every adapter, and shift the stored Unix timestamps: the health logic depends
+// only on differences `time.Now().Unix() - stored`, so subtracting d from every stored timestamp
+// is observationally the same as letting d seconds pass.
+
+import (
+	"errors"
+	"fmt"
+	"math/rand"
+	"sync/atomic"
+
+	"github.com/TarsCloud/TarsGo/tars/protocol"
+	"github.com/TarsCloud/TarsGo/tars/protocol/res/basef"
+	"github.com/TarsCloud/TarsGo/tars/transport"
+	"github.com/TarsCloud/TarsGo/tars/util/endpoint"
+)
+
+// VerifHealth is a copy of the health record of one AdapterProxy.
+type VerifHealth struct {
+	Exists          bool
+	FailCount       int32
+	LastFailCount   int32
+	SendCount       int32
+	SuccessCount    int32
+	Status          bool
+	Closed          bool
+	LastSuccessTime int64
+	LastBlockTime   int64
+	LastCheckTime   int64
+}
+
+// VerifManager wraps an endpointManager in registry ("proxy") mode and a ServantProxy bound to it.
+type VerifManager struct {
+	e *endpointManager
+	s *ServantProxy
+}
+
+// VerifNewManager builds an endpointManager for objName (no "@": endpoints come from the
+// communicator's Registrar), refreshes it once from the registrar, and binds a ServantProxy to it.
+// Neither is registered in the global manager.
+func VerifNewManager(comm *Communicator, objName string) (*VerifManager, error) {
+	e := newEndpointManager(objName, comm)
+	if e == nil || e.directProxy {
+		return nil, errors.New("verif: objName must be a plain servant name")
+	}
+	if err := e.doFresh(); err != nil {
+		return nil, err
+	}
+	s := &ServantProxy{
+		name:    objName,
+		comm:    comm,
+		proto:   &protocol.TarsProtocol{},
+		timeout: comm.Client.AsyncInvokeTimeout,
+		version: basef.TARSVERSION,
+		manager: e,
+	}
+	return &VerifManager{e: e, s: s}, nil
+}
+
+// Servant returns the ServantProxy whose calls are routed by this manager.
+func (v *VerifManager) Servant() *ServantProxy { return v.s }
+
+// CheckStatus runs one status check (what the global ticker does every check-status-interval).
+func (v *VerifManager) CheckStatus() { v.e.checkStatus() }
+
+// Active returns the keys of the endpoints currently in activeEp (in slice order).
+func (v *VerifManager) Active() []string {
+	v.e.epLock.Lock()
+	defer v.e.epLock.Unlock()
+	out := make([]string, 0, len(v.e.activeEp))
+	for _, ep := range v.e.activeEp {
+		out = append(out, ep.Key)
+	}
+	return out
+}
+
+// Registry returns the keys of the registry's active list (activeEpf).
+func (v *VerifManager) Registry() []string {
+	out := make([]string, 0, len(v.e.activeEpf))
+	for _, ef := range v.e.activeEpf {
+		out = append(out, endpoint.Tars2endpoint(ef).Key)
+	}
+	return out
+}
+
+// ProbeQueueLen is the number of probe candidates waiting in the checkAdapter channel.
+func (v *VerifManager) ProbeQueueLen() int { return len(v.e.checkAdapter) }
+
+// ProbePending returns the keys recorded in checkAdapterList.
+func (v *VerifManager) ProbePending() []string {
+	var out []string
+	v.e.checkAdapterList.Range(func(k, _ interface{}) bool {
+		out = append(out, k.(string))
+		return true
+	})
+	return out
+}
+
+// Health returns the health record of the adapter of the endpoint with the given key.
+func (v *VerifManager) Health(key string) VerifHealth {
+	x, ok := v.e.epList.Load(key)
+	if !ok {
+		return VerifHealth{}
+	}
+	c := x.(*AdapterProxy)
+	return VerifHealth{
+		Exists:          true,
+		FailCount:       atomic.LoadInt32(&c.failCount),
+		LastFailCount:   atomic.LoadInt32(&c.lastFailCount),
+		SendCount:       atomic.LoadInt32(&c.sendCount),
+		SuccessCount:    atomic.LoadInt32(&c.successCount),
+		Status:          c.status,
+		Closed:          c.closed,
+		LastSuccessTime: atomic.LoadInt64(&c.lastSuccessTime),
+		LastBlockTime:   atomic.LoadInt64(&c.lastBlockTime),
+		LastCheckTime:   atomic.LoadInt64(&c.lastCheckTime),
+	}
+}
+
+// ShiftTimes subtracts d seconds from every stored timestamp of every adapter: equivalent to d
+// seconds passing (d may be negative to cancel real elapsed time).
+func (v *VerifManager) ShiftTimes(d int64) {
+	v.e.epList.Range(func(_, x interface{}) bool {
+		c := x.(*AdapterProxy)
+		atomic.AddInt64(&c.lastSuccessTime, -d)
+		atomic.AddInt64(&c.lastBlockTime, -d)
+		atomic.AddInt64(&c.lastCheckTime, -d)
+		atomic.AddInt64(&c.lastKeepAliveTime, -d)
+		return true
+	})
+}
+
+// FreshClient replaces the transport client of the adapter (as onPush does on a reconnect
+// message), so that the next Send/ReConnect dials again instead of reusing a connection whose
+// peer has meanwhile gone away. Returns false if the endpoint has no adapter yet.
+func (v *VerifManager) FreshClient(key string) bool {
+	x, ok := v.e.epList.Load(key)
+	if !ok {
+		return false
+	}
+	c := x.(*AdapterProxy)
+	old := c.tarsClient
+	c.tarsClient = transport.NewTarsClient(fmt.Sprintf("%s:%d", c.point.Host, c.point.Port), c, c.conf)
+	old.Close()
+	return true
+}
+
+// SeedRand reseeds the manager's private PRNG (used only for the "no endpoint is alive, pick a
+// random one" fallback of SelectAdapterProxy), so that a recorded history can be replayed.
+func (v *VerifManager) SeedRand(seed int64) { v.e.rand = rand.New(rand.NewSource(seed)) }
